@@ -11,6 +11,14 @@ fn parse_content_line(
     let mut nodes = Vec::new();
     if let Some((text_part, divert_part)) = split_inline_divert(content) {
         nodes.extend(tokenize_inline_content(text_part)?);
+        // Text that runs into a divert ends in exactly one space, so that the target's
+        // content joins it as the next word (`the mug,-> drink` prints "the mug, ...").
+        if let Some(Node::Text(t)) = nodes.last_mut() {
+            let trimmed = t.trim_end();
+            if !trimmed.is_empty() {
+                *t = format!("{trimmed} ");
+            }
+        }
         nodes.push(Node::Divert(parse_divert(divert_part)?));
     } else {
         nodes.extend(tokenize_inline_content(content)?);
